@@ -1345,6 +1345,9 @@ def run(ctx):
         except (core.CoqEvalError, NotRepresentable) as e:
             tie = (tie + ' | ' if tie else '') + 'model evaluation failed: %s' % str(e)[-800:]
     ctx.log('model: %d disagreements' % len(disagree))
+    if tie:
+        ctx.notes.append('tie: ' + tie[:600])
+        ctx.log('tie broken: ' + ' '.join(tie.split())[:300])
     first = None
     if disagree:
         # print what the model returns for the first few, for the replay
